@@ -827,6 +827,13 @@ func (e *Env) call(n *ECall) TV {
 			cs = append(cs, eq(nw.S, od.S))
 		}
 		return TV{S: and(cs...), Sort: sBool, Ty: boolT}
+	case "store":
+		a, k, v := arg(0), arg(1), arg(2)
+		if v.Sort == "nil" {
+			_, vs := arrayParts(a.Sort)
+			v = TV{S: vc.enc.zeroOfSort(vs, nil), Sort: vs}
+		}
+		return TV{S: sto(a.S, k.S, v.S), Sort: a.Sort}
 	case "ptr":
 		// ptr(x): reinterpret as reference (for ghost maps keyed by ref)
 		v := arg(0)
@@ -959,6 +966,19 @@ func (e *Env) compsOfLocSpec(loc string) []string {
 	if g, ok := vc.prog.cs.Ghosts[loc]; ok {
 		c, _, _ := e.ghostComp(g)
 		return []string{c}
+	}
+	if strings.HasPrefix(loc, "[]") {
+		// elements of every slice/array of this element type
+		te, err := parseTypeString(loc[2:])
+		if err == nil {
+			if t, _ := e.resolveType(te); t != nil {
+				if _, isStruct := t.Underlying().(*types.Struct); isStruct {
+					return vc.compsOfType(t)
+				}
+				c, _ := vc.elemComp(t)
+				return []string{c}
+			}
+		}
 	}
 	if k := strings.LastIndex(loc, "."); k > 0 {
 		tname, fname := loc[:k], loc[k+1:]
